@@ -673,8 +673,14 @@ def invariant_for(ex, st, rng, spec, ordinal, elem_fn=None):
         pass
     except BreakSignal:
         return
+    lets = {"_i": i}
+    for nm, expr in (spec.get("let_post") or {}).items():
+        # ghost values computed once after the body (e.g. the result of a callee contract on the pre-state) and shared
+        # by the lemma instances below
+        ce = S.ClauseExec(ex, dict(env, **lets), entry_env=entry, pre_env=pre)
+        lets[nm] = ce.run(expr)
     for u in spec.get("use_post", ()):
-        S.use_lemma(ex, u[0], u[1], extra={"_i": i}, entry=entry, pre=pre)
+        S.use_lemma(ex, u[0], u[1], extra=lets, entry=entry, pre=pre)
     nxt = arith("+", i, 1)
     bind(nxt)
     goals = [S.eval_clause(ex, c, extra={"_i": nxt, "_lo": lo, "_hi": hi}, entry=entry, pre=pre)
